@@ -8,6 +8,7 @@ PROP = "C05"
 SCALE = 2 ** 100
 VECTOR_OPS = ("grad", "gps", "sens", "sensdiv", "hess", "ahess", "pen", "penh", "penah")
 NEAR = [0]
+INDET = [0]
 
 
 def _bits_to_float(tok):
@@ -23,6 +24,16 @@ def compare(op, impl, model):
         return impl != "err"
     if impl == model:
         return True
+    if kind == "hist":
+        # members without initialiser: the model answers for the byte the harness put into the object's storage and, after " / ",
+        # for the opposite value; both are legitimate values of an indeterminate member
+        alts = [a.strip() for a in model.split("/")]
+        if impl == alts[0]:
+            return True
+        if impl in alts[1:]:
+            INDET[0] += 1
+            return True
+        return False
     if impl == "err" or model in ("err", "bad-op", "bad-bin", "<missing>") or impl == "<missing>":
         return False
     try:
@@ -71,11 +82,14 @@ def main(tier, replay):
         "FromProjData / chained / base-class efficiency table, zero_seg0_end_planes, max_segment_num_to_process, use_subset_sensitivities, use_tofsens, "
         "every legal num_subsets and every subset. One line per (quantity, subset): per-voxel results compared with the Lean model evaluated exactly in Rat "
         "on explicit matrix rows (from a separate matrix object without symmetries/cache) with the derived bound |impl - exact| <= 4*n*2^-24*sum|terms| "
-        "(n = row length(s) + number of contributions to the voxel + 10); the value with the model at binary64 and the bound 4*n*2^-24*sum(|y|+|y log e|+|e|) "
+        "(n = row length(s) + number of contributions to the voxel + 10; sum|terms| taken with |P_bv| + Pmax/16 to allow for the rounding of the ray-traced "
+        "matrix elements between the symmetric/cached matrix of the projector and the explicit rows); the value with the model at binary64 and the bound 4*n*2^-24*sum(|y|+|y log e|+|e|) "
         "+ 8*2^-24*|value|. Oracle (harness, double precision, independent of the Lean model): textbook expressions on the explicit rows on the regular region, "
         "gradient-plus-sensitivity minus gradient = sensitivity, sum over subsets = full data, penalised = unpenalised - prior share, all orders of first "
-        "requests give the same results, with relative tolerance 3e-5 of sum|terms|. distinct = distinct op lines.",
-        extra=dict(input_histogram=hist, near_threshold_not_compared=NEAR[0]))
+        "requests give the same results (bitwise) on fresh objects whose members without initialiser are pre-set to 0 and to 1, with relative tolerance 3e-5 of "
+        "sum|terms|. hist lines: ok/exception pattern of request histories against the flag machine of the model (both values of the indeterminate "
+        "members accepted). distinct = distinct op lines.",
+        extra=dict(input_histogram=hist, near_threshold_not_compared=NEAR[0], indeterminate_flag_other_value=INDET[0]))
     chk.assumptions += ["floating point rounding is not modelled (forward error bound instead)",
                         "which viewgrams belong to a subset is taken from the library's own subset scheme (C06); the oracle checks that they partition the data",
                         "explicit matrix rows come from ProjMatrixByBinUsingRayTracing itself (row correctness is C03/C04)",
